@@ -54,9 +54,10 @@ PrimOk(ev) ==
   /\ ev.ab = ShiftDef(r, r[1])                                   \* r += r.begin()
   /\ ev.ae = ShiftDef(r, r[2])                                   \* r += r.end()
   /\ ev.dnlen = ev.len /\ ev.dn2len = ev.len                     \* shifting below the origin (unsigned: wrap) keeps the length
+  /\ ev.cg = ContigDef(r, q)                                    \* contiguity is a statement about bounds (documented: "share one bound"), so it is
+                                                                 \* asserted for empty operands too (seeded C20-19: an empty range nested inside the other)
   /\ ne => /\ ev.ov = OverlapDef(r, q)
            /\ ev.ct = ContainsDef(r, q)
-           /\ ev.cg = ContigDef(r, q)
            /\ ev.ex = ExpandDef(r, q)
            /\ ev.sl[1] <= ev.sl[2] /\ Cells(ev.sl) = SliceCells(r, q)
   /\ (~IsEmptyR(r)) => (ev.sl[1] <= ev.sl[2] /\ Cells(ev.sl) = SliceCells(r, q))
